@@ -133,6 +133,45 @@ def _resign_uses_rounding_sign(F, E, f, t):
 ROOT = re.compile(r'Roots::sqrt$|Roots::cbrt$|Roots::nth_root$|BigUint::sqrt$|BigUint::cbrt$|BigUint::nth_root$|BigInt::sqrt$|BigInt::nth_root$')
 
 
+LOSSY_INT = re.compile(r'ops::(Div|Rem|Shr|DivAssign|RemAssign|ShrAssign)::|Integer::div_rem$|Integer::div_floor$|Integer::mod_floor$|::modpow$|BigU?int::(sqrt|cbrt|nth_root)$|Roots::')
+
+
+def radicand_exact(rep, F, fns, rule='R-STICKY'):
+    """the integer handed to the integer root is the operand scaled UP exactly: no truncating
+    big-integer operation (division, remainder, shift, another root) lies on its dependence chain"""
+    n = 0
+    family = {g.name for g in fns}
+    for f in fns:
+        for rb, rt in f.calls():
+            is_root = bool(ROOT.search(cdef(rt)) or ROOT.search(cres(rt)))
+            to_family = cres(rt) in family
+            if not (is_root or to_family):
+                continue
+            # operands carrying the number: the receiver of the root / big-integer arguments handed to the family
+            ops = [rt['args'][0]] if is_root else [a for a in rt['args'] if re.search(r'BigUint|BigInt|WithScale', strip_lt(a.get('pl', {}).get('ty') or a.get('ty') or ''))]
+            ops = [a for a in ops if a['k'] in ('copy', 'move')]
+            if not ops:
+                continue
+            n += 1
+            key = '%s|%s:radicand-not-truncated' % (f.key, (cdef(rt) if is_root else cres(rt)).split('::')[-1])
+            stops, visited = backward_calls(f, [a['pl']['l'] for a in ops], lambda t: False)
+            bad = []
+            for b, t in visited:
+                if t is rt:
+                    continue
+                d = cdef(t)
+                if LOSSY_INT.search(d) or LOSSY_INT.search(cres(t)):
+                    tys = [strip_lt(x.get('pl', {}).get('ty') or x.get('ty') or '') for x in t['args']]
+                    if any(re.search(r'BigUint|BigInt|Cow<', ty) for ty in tys):
+                        bad.append((d.split('::')[-1], t['loc']['line']))
+            if bad:
+                rep.violation(rule, key, 'the radicand is produced through a truncating big-integer operation (%s at line %d): low-order digits of the operand are dropped before the root is taken, so exactness is lost'
+                              % bad[0], f.where(bad[0][1]))
+            else:
+                rep.ok(rule, key, 'radicand = operand scaled up by a power of ten: %d calls on its dependence chain, none truncating' % len(visited), f.where(rt['loc']['line']))
+    return n
+
+
 def sticky(rep, F, fns, rule='R-STICKY'):
     """in a function that takes an integer root and returns a rounded decimal, the radicand must
     have a use, other than the root call itself, whose value reaches the returned decimal"""
